@@ -1,6 +1,7 @@
 package sim
 
 import (
+	"encoding/hex"
 	"fmt"
 	"strings"
 
@@ -42,13 +43,53 @@ func (propC11) Gen(r *Rand) *Plan {
 			content[i] = r.PickRune([]rune{'\n', '\r', 'a'}) // dense in line breaks
 		}
 	}
+	stride := r.ObsStride()
+	var ops []Op
 	nops := r.Range(1, 40*size)
 	if huge {
 		nops = r.Range(20, 60)
 	}
+	cfg := map[string]string{"obs": fmt.Sprint(stride)}
+	text := string(content)
+	switch {
+	case r.Bool(0.03):
+		// content given as bytes, not all of them well-formed UTF-8 (a string is a byte sequence)
+		raw := make([]byte, 0, 16)
+		withValid := r.Bool(0.5)
+		for i, m := 0, r.Range(1, 10); i < m; i++ {
+			switch r.Intn(7) {
+			case 0:
+				raw = append(raw, 0xC3) // a lead byte without continuation
+			case 1:
+				raw = append(raw, 0xFF)
+			case 2:
+				raw = append(raw, 0x80) // a stray continuation byte
+			case 3:
+				raw = append(raw, '\n')
+			case 4:
+				if withValid {
+					raw = append(raw, "é"...)
+				} else {
+					raw = append(raw, 'e')
+				}
+			default:
+				raw = append(raw, byte('a'+r.Intn(3)))
+			}
+		}
+		cfg["hex"] = "1"
+		text = hex.EncodeToString(raw)
+		n = len([]rune(string(raw)))
+	case r.Bool(0.0007 * float64(Scale)):
+		// one very wide line (around 2^16 columns), a break, a short tail
+		w := r.PickInt([]int{65535, 65536, 65537, 70000})
+		text = strings.Repeat("a", w) + r.Pick([]string{"\n", "\r", "\r\n"}) + "bc\nd"
+		n = len([]rune(text))
+		ops = nil
+		ops = append(ops, Op{Op: "readn", I: w + r.Range(0, 3)})
+		nops = r.Range(4, 14)
+	}
 	// biased phases
 	phase := r.Intn(4)
-	var ops []Op
 	for len(ops) < nops {
 		if r.Bool(0.15) {
 			phase = r.Intn(4)
@@ -64,6 +105,10 @@ func (propC11) Gen(r *Rand) *Plan {
 		default:
 			w = []int{3, 3, 2, 3, 3, 3, 2, 2, 2}
 		}
+		if stride > 1 {
+			// sparse observation: the history itself contains no position queries either
+			w[3], w[4], w[5], w[6], w[7] = 0, 0, 0, 0, 0
+		}
 		names := []string{"read", "unread", "unreadmany", "peek", "peekline", "peekcol", "line", "col", "reset"}
 		op := Op{Op: names[r.Weighted(w)]}
 		if op.Op == "unreadmany" {
@@ -77,7 +122,7 @@ func (propC11) Gen(r *Rand) *Plan {
 		}
 		ops = append(ops, op)
 	}
-	return &Plan{Tasks: []TaskPlan{{Text: string(content), Ops: ops}}}
+	return &Plan{Config: cfg, Tasks: []TaskPlan{{Text: text, Ops: ops}}}
 }
 
 func c11Kclass(k, n int) string {
@@ -125,9 +170,16 @@ func (propC11) Exec(p *Plan, x *Ctx) *Outcome {
 		return out
 	}
 	tp := p.Tasks[0]
+	if p.Cfg("hex", "") == "1" {
+		if raw, err := hex.DecodeString(tp.Text); err == nil {
+			tp.Text = string(raw) // may be ill-formed UTF-8; the characters are what Go's conversion to runes gives
+		}
+	}
 	content := []rune(tp.Text)
 	n := len(content)
-	run := NewRun(0)
+	// the step budget of one operation grows with the content: UnreadMany over thousands of characters
+	// legitimately rescans the content many times
+	run := NewRun(DefaultStepBudget + 3000*int64(n))
 	stateChanging := 0
 	body := func() {
 		s := sio.NewStringScanner(tp.Text)
@@ -136,8 +188,12 @@ func (propC11) Exec(p *Plan, x *Ctx) *Outcome {
 		forward := func(k int) (int, int) {
 			f := sio.NewStringScanner(tp.Text)
 			for i := 0; i < k; i++ {
+				if i%1024 == 0 {
+					run.ResetOpSteps() // every Read is an operation of its own for the step budget
+				}
 				f.Read()
 			}
+			run.ResetOpSteps()
 			return f.Line(), f.Column()
 		}
 		modelAt := func(k int) rune {
@@ -156,9 +212,11 @@ func (propC11) Exec(p *Plan, x *Ctx) *Outcome {
 			}
 		}
 		decoyText := "decoy\r\n" + strings.Repeat("#", (len(tp.Ops)*7)%300) + "\n!"
+		stride := p.Stride()
 		for i, o := range tp.Ops {
 			run.ResetOpSteps()
 			crossed := "-"
+			observe := Observe(stride, i, len(tp.Ops))
 			if i%3 == 1 {
 				// another scanner over other content is constructed and used while this one is alive:
 				// instances must not share their content or position
@@ -172,6 +230,9 @@ func (propC11) Exec(p *Plan, x *Ctx) *Outcome {
 			case "readn":
 				bad := false
 				for j := 0; j < o.I && !bad; j++ {
+					if j%1024 == 0 {
+						run.ResetOpSteps()
+					}
 					got := s.Read()
 					want := modelAt(k)
 					if k <= n {
@@ -189,7 +250,10 @@ func (propC11) Exec(p *Plan, x *Ctx) *Outcome {
 				crossed = "many"
 				stateChanging++
 			case "read":
-				pl, pc := s.PeekLine(), s.PeekColumn()
+				pl, pc := 0, 0
+				if observe {
+					pl, pc = s.PeekLine(), s.PeekColumn()
+				}
 				got := s.Read()
 				want := modelAt(k)
 				crossed = c11CharClass(content, k)
@@ -204,7 +268,9 @@ func (propC11) Exec(p *Plan, x *Ctx) *Outcome {
 					out.Event("desync")
 					return
 				}
-				if l, c := s.Line(), s.Column(); l != pl || c != pc {
+				if !observe {
+					// no position queries around this Read
+				} else if l, c := s.Line(), s.Column(); l != pl || c != pc {
 					out.Violate("peek-consistency", fmt.Sprintf("C11/peek-consistency/%s/%s", c11Kclass(kBefore, n), crossed),
 						"op %d: at cursor %d of %q PeekLine/PeekColumn = %d/%d but after the next Read Line/Column = %d/%d", i, kBefore, tp.Text, pl, pc, l, c)
 				}
@@ -263,6 +329,10 @@ func (propC11) Exec(p *Plan, x *Ctx) *Outcome {
 				k = 0
 				stateChanging++
 			default:
+				continue
+			}
+			if !observe {
+				out.Event("%s k=%d", o.Op, k)
 				continue
 			}
 			out.Event("%s k=%d l=%d c=%d", o.Op, k, s.Line(), s.Column())
